@@ -500,7 +500,7 @@ func runC04(c *Ctx) {
 		b := call.Block()
 		hdrOK := false
 		for _, pr := range b.Preds {
-			if iff := lastIf(pr); iff != nil && condPolarity(tb.T(iff.Cond), "lt(_,c["+numShards+"])", nil) != 0 {
+			if iff := lastIf(pr); iff != nil && (condPolarity(tb.T(iff.Cond), "lt(_,c["+numShards+"])", nil) != 0 || condPolarity(tb.T(iff.Cond), "lt(_,call[len](fld[shards](p[0])))", nil) != 0) {
 				hdrOK = true
 			}
 		}
